@@ -649,7 +649,7 @@ JANET_CORE_FN(cfun_buffer_format_at,
               "(buffer/format-at buffer at format & args)",
               "Snprintf like functionality for printing values into a buffer. Returns "
               "the modified buffer.") {
-    janet_arity(argc, 2, -1);
+    janet_arity(argc, 3, -1);
     JanetBuffer *buffer = janet_getbuffer(argv, 0);
     int32_t at = janet_getinteger(argv, 1);
     if (at < 0) {
